@@ -12,6 +12,7 @@ import Receptor.Drive.Ads
 import Receptor.Drive.Proto
 import Receptor.Drive.Work
 import Receptor.Drive.Status
+import Receptor.Drive.Ctl
 /-! Line-protocol driver: one JSON request per line `{"e":engine,"op":op,"a":args,"r":impl-observation}`,
 one JSON reply per line `{"m":model-result,"prop":true|false|null,"why":…}` or `{"bad-op":…}`. -/
 open Lean Receptor.Drive
@@ -34,6 +35,7 @@ def dispatch (e op : String) (a r : Json) : Except String Reply :=
   | "redact" => Receptor.Drive.Work.redactHandle op a r
   | "sig" => Receptor.Drive.Work.sigHandle op a r
   | "status" => Receptor.Drive.Status.handle op a r
+  | "ctl" => Receptor.Drive.Ctl.handle op a r
   | _ => throw s!"bad-op unknown engine {e}"
 
 def handleLine (line : String) : String :=
